@@ -250,7 +250,11 @@ class StorageReplayer:
                 sec, gc = args
                 from ZODB.serialize import referencesf
                 from .. import faultfs
-                faultfs.S.fail_filter = lambda e: str(e.get('file', '')).endswith('.pack') and e['op'] == 'write'
+                if self.opts.get('fault_target') == 'old':
+                    # the removal of the previous pack's Data.fs.old fails (permissions, a directory in its place ...)
+                    faultfs.S.fail_filter = lambda e: str(e.get('file', '')).endswith('.old') and e['op'] == 'remove'
+                else:
+                    faultfs.S.fail_filter = lambda e: str(e.get('file', '')).endswith('.pack') and e['op'] == 'write'
                 faultfs.S.fail_kind = self.opts.get('fault_kind', 'error')
                 faultfs.S.fail_persist = False
                 faultfs.S.counted = 0
